@@ -33,6 +33,52 @@ def install_stubs() -> None:
         setattr(PD, name, w)
 
 
+def install_contract_stubs() -> None:
+    """S9 (contract version) for harnesses whose intervals carry *symbolic* bounds (C07): the real helpers cannot run untraced there."""
+    import peptacular.proforma.proforma_parser as PP
+    from . import restub
+    restub.install(PP, SF)
+    # S9: ProFormaAnnotation.__eq__ compares modification lists through Counter(...) == Counter(...), i.e. through Mod.__hash__;
+    # CrossHair replaces the result of a user-defined __hash__ by a fresh symbol ("proxy return") and then aborts the path
+    # ("proxy intolerance").  The contract of are_mods_equal - equality as multisets of (value, multiplier) - is substituted here;
+    # the real are_mods_equal/__hash__ are the subject of C20.
+    def are_mods_equal(m1, m2):
+        if m1 is None or m2 is None:
+            return m1 is None and m2 is None
+        if len(m1) != len(m2):
+            return False
+        rest = list(m2)
+        for a in m1:
+            hit = -1
+            for i, b in enumerate(rest):
+                if type(a.val) is type(b.val) and a.val == b.val and a.mult == b.mult:
+                    hit = i
+                    break
+            if hit < 0:
+                return False
+            rest.pop(hit)
+        return True
+    PP.are_mods_equal = are_mods_equal
+
+    def are_intervals_equal(i1, i2):
+        if i1 is None or i2 is None:
+            return i1 is None and i2 is None
+        if len(i1) != len(i2):
+            return False
+        rest = list(i2)
+        for a in i1:
+            hit = -1
+            for k, b in enumerate(rest):
+                if a.start == b.start and a.end == b.end and a.ambiguous == b.ambiguous and are_mods_equal(a.mods, b.mods):
+                    hit = k
+                    break
+            if hit < 0:
+                return False
+            rest.pop(hit)
+        return True
+    PP.are_intervals_equal = are_intervals_equal
+
+
 def _real(x):
     """the substring search runs in the regex C extension: the strings are realisation points anyway; realising them on entry
     keeps every later string operation concrete (CrossHair still visits every value of the declared domain, path by path)"""
